@@ -83,7 +83,7 @@ def run_mutant(args: tuple[str, dict, str]) -> dict:
         if code == 2:
             return {"id": m["id"], "status": "analysis-error", "why": ev.get("error") or out[-300:]}
         rules = {v["rule"] for v in ev["coverage"]["violations"]}
-        want = m["rule"]
+        want = m.get("rules", {}).get(pid, m["rule"])
         if code == 1 and (want in rules):
             return {"id": m["id"], "status": "detected", "rule": want}
         return {"id": m["id"], "status": "missed", "why": f"exit {code}, rules fired {sorted(rules)}, wanted {want}"}
